@@ -372,10 +372,18 @@ class SpecEval:
             return SV(self.heap.get(rk)[kx.t], 'bool')
         if name == 'atexit':
             # atexit(k, x): value of the loop-carried variable x of loop k at the loop head, i.e. when the loop is left
-            key = (args[0][1], args[1][1])
-            v = getattr(self.V, 'loop_phi_vals', {}).get(key)
+            key = (args[0][1], args[1][1]) if args[1][0] == 'id' else None
+            v = getattr(self.V, 'loop_phi_vals', {}).get(key) if key else None
             if v is None:
-                raise SpecError('atexit(%s, %s): no such loop-carried variable' % key)
+                # any expression: evaluated in the state in which loop k is left (its head state; variables that
+                # do not exist at the head keep their current value)
+                hs = getattr(self.V, 'loop_head_states', {}).get(str(args[0][1]))
+                if hs is None:
+                    raise SpecError('atexit(%s, ...): unknown identifier (no such loop before this point)' % (args[0][1],))
+                env0 = dict(self.env)
+                env0.update(hs[1])
+                env0.update(self.bound)
+                return self.sub(heap=hs[0], env=env0).ev(args[1])
             return v
         if name == 'next':
             if self.latch is None:
@@ -486,6 +494,13 @@ class SpecEval:
             return SV(w.Iface.ref(v.t), ty)
         if name == 'itag':
             return SV(w.Iface.tag(self.ev(args[0]).t), 'int')
+        if name == 'fmtfloat':
+            # fmtfloat(x): the text strconv.FormatFloat(x, 'f', -1, 64) returns (the term of its trusted model)
+            f_ = w.uf('strconv_FormatFloat', z3.RealSort(), z3.IntSort(), z3.IntSort(), z3.IntSort(), w.Str)
+            x_ = self.ev(args[0]).t
+            if z3.is_int(x_):
+                x_ = z3.ToReal(x_)
+            return SV(f_(x_, z3.IntVal(102), z3.IntVal(-1), z3.IntVal(64)), 'string')
         if name == 'iface':
             # iface(x, "T"): the interface value holding the pointer x with dynamic type T (what MakeInterface builds)
             ty = resolve_type(w, self.type_from_ast(args[1]), self.pkg)
